@@ -20,14 +20,22 @@ def powerOptsOf (cfg : RatioCfg α) : PowerOpts α :=
 
 namespace C08
 
-theorem scale_and_distr_alt_eq (P : Prims α) (cfg : RatioCfg α) (cv cn tv tn d : α) :
+theorem scale_and_distr_alt_guarded (P : Prims α) (cfg : RatioCfg α) (cv cn tv tn d : α) :
+    RatioOfMeans.scale_and_distr_alt P cfg cv cn tv tn d
+      = (P.sqrt (max (seSq (optsOf cfg) cv cn tv tn) 0), refDist P (optsOf cfg) cv cn tv tn,
+         if cfg.use_t then P.nct (degF (optsOf cfg) cv cn tv tn) (d / P.sqrt (max (seSq (optsOf cfg) cv cn tv tn) 0))
+         else P.norm (d / P.sqrt (max (seSq (optsOf cfg) cv cn tv tn) 0))) := by
+  unfold RatioOfMeans.scale_and_distr_alt seSq refDist degF welchDf pooledVar optsOf
+  cases cfg.equal_var <;> cases cfg.use_t <;> simp <;>
+    (first | (refine ⟨?_, ?_⟩ <;> (try (congr 2)) <;> (try (congr 2)) <;> ring_nf) | (congr 2; ring_nf) | skip)
+
+theorem scale_and_distr_alt_eq (P : Prims α) (cfg : RatioCfg α) (cv cn tv tn d : α)
+    (h : 0 ≤ seSq (optsOf cfg) cv cn tv tn) :
     RatioOfMeans.scale_and_distr_alt P cfg cv cn tv tn d
       = (P.sqrt (seSq (optsOf cfg) cv cn tv tn), refDist P (optsOf cfg) cv cn tv tn,
          if cfg.use_t then P.nct (degF (optsOf cfg) cv cn tv tn) (d / P.sqrt (seSq (optsOf cfg) cv cn tv tn))
          else P.norm (d / P.sqrt (seSq (optsOf cfg) cv cn tv tn))) := by
-  unfold RatioOfMeans.scale_and_distr_alt seSq refDist degF welchDf pooledVar optsOf
-  cases cfg.equal_var <;> cases cfg.use_t <;> simp <;>
-    (first | (refine ⟨?_, ?_⟩ <;> (try (congr 1)) <;> (try (congr 1)) <;> ring_nf) | (congr 1; ring_nf) | skip)
+  rw [scale_and_distr_alt_guarded, max_eq_left h]
 
 theorem seSq_opts (cfg : RatioCfg α) (a b c d : α) :
     seSq (optsOf cfg) a b c d = seSq (powerOptsOf cfg).test a b c d := rfl
@@ -43,11 +51,13 @@ ratio, alpha, alternative, `equal_var` and `use_t`, the power computed by the ge
 `_power_from_stats` is the textbook power: control and treatment receive `n/(1+r)` and `n·r/(1+r)`
 observations, the statistic under the alternative is normal at `d/se` (Z) or non-central t with the
 test's degrees of freedom and non-centrality `d/se` (t), and the rejection region is that of the
-level-alpha test (both tails for two-sided). -/
-theorem power_eq_textbook (P : Prims α) (cfg : RatioCfg α) (v n d : α) :
+level-alpha test (both tails for two-sided).  `hse`: the squared standard error is non-negative
+(true for `v ≥ 0`, `r > 0`, `n > 2`: `seSq_power`), so the code's `max(·, 0)` guard is the identity. -/
+theorem power_eq_textbook (P : Prims α) (cfg : RatioCfg α) (v n d : α)
+    (hse : 0 ≤ seSq (optsOf cfg) v (n / (1 + cfg.ratio)) v (n * cfg.ratio / (1 + cfg.ratio))) :
     RatioOfMeans.power_from_stats P cfg v n d = power P (powerOptsOf cfg) v n d := by
   unfold RatioOfMeans.power_from_stats power nullDist altDist powerSe nControl nTreatment
-  rw [scale_and_distr_alt_eq]
+  rw [scale_and_distr_alt_eq P cfg _ _ _ _ _ hse]
   simp only [seSq_opts, degF_opts, refDist_opts]
   rfl
 
